@@ -501,8 +501,8 @@ class ClassV:
         out = []
         for c in self.mro:
             for b in c.bases:
-                if isinstance(b, Ext) and b not in out:
-                    out.append(b)
+                if isinstance(b, Ext) and b not in out and not b.path.startswith("typing."):
+                    out.append(b)  # (typing.Generic[...] / Protocol contribute no run-time attributes)
         return out
 
     def lookup(self, name, start_after=None):
